@@ -28,7 +28,7 @@ def run(chk, repo, tier):
     no_hidden_state(chk, repo, 'C07')
     chk.clause('C07-o', 'the views and the plane product leave the wavefront and the plane untouched', 4)
     from .common import operands_untouched
-    operands_untouched(chk, repo, 'C07-o', ['wavefront.Wavefront.intensity', 'wavefront.Wavefront.field', 'wavefront.Wavefront.insert', 'plane.Plane.multiply', 'wavefront.Wavefront.__mul__'], allow=[('wavefront.Wavefront.insert', 'out')])
+    operands_untouched(chk, repo, 'C07-o', ['wavefront.Wavefront.intensity', 'wavefront.Wavefront.field', 'wavefront.Wavefront.insert', 'plane.Plane.multiply', 'wavefront.Wavefront.__mul__', 'wavefront.Wavefront.__rmul__', 'field.merge', 'field._merge', 'field.reduce', 'field.Field.__mul__'], allow=[('wavefront.Wavefront.insert', 'out')])
     chk.clause('C07-a', 'intensity = |coherent field|^2: reduce before modulus; the two insert branches differ only by abs(.**2)', 3)
     chk.clause('C07-b', 'accumulation adds weight*value into out and nothing else; Wavefront.insert forwards weight and returns out', 3)
     chk.clause('C07-c', 'phasor exponent is +2*pi*i*opd/wavelength (dimensionless)', 4)
